@@ -19,6 +19,10 @@ class Reject(Exception):
     pass
 
 
+def is_cfg_family(w):
+    return w.name[:2] in ("WF", "WG", "WH", "WJ")
+
+
 class _Recorder:
     """records Report calls so that a corpus compiled once is replayed into every property that uses it"""
 
@@ -115,6 +119,28 @@ class World:
         lines.append("    }")
         return lines
 
+    def reduced(self):
+        """the same declaration with every disabled item deleted and every #[cfg] removed"""
+        truth = dict(PREDS)
+        en = lambda p: all(truth[q] for q in plist(p))
+        archs = []
+        for (an, aid, ap, cs) in self.archs:
+            if not en(ap):
+                continue
+            archs.append((an, aid, None, [(c, cid, None) for (c, cid, cp) in cs if en(cp)]))
+        return World(self.name + "R", archs)
+
+    def twin_expectations(self, ref):
+        """const assertions: every constant of the decorated world equals the one of its reduced twin"""
+        mo, mr = "m_%s" % self.name.lower(), "m_%s" % ref.name.lower()
+        out = []
+        for (an, aid, ap, cs) in ref.archs:
+            out.append("const _: () = assert!(<%s::%s as Archetype>::ARCHETYPE_ID == <%s::%s as Archetype>::ARCHETYPE_ID);" % (mo, an, mr, an))
+            for (c, cid, cp) in cs:
+                out.append("const _: () = assert!(<%s::%s as ArchetypeHas<%s::%s>>::COMPONENT_ID == <%s::%s as ArchetypeHas<%s::%s>>::COMPONENT_ID);" % (mo, an, mo, c, mr, an, mr, c))
+        out.append("const _: () = assert!(<%s::%s as World>::NUM_ARCHETYPES == <%s::%s as World>::NUM_ARCHETYPES);" % (mo, self.name, mr, ref.name))
+        return out
+
     def expectations(self):
         """-> (list of const-assert lines) or raises Reject"""
         truth = dict(PREDS)
@@ -144,6 +170,23 @@ class World:
             raise Reject("no archetype")
         out.append("    const _: () = assert!(<%s as World>::NUM_ARCHETYPES == %d);" % (self.name, n))
         return out
+
+
+# C15-R5: the id literal is a u8: 255 is accepted as written, anything above cannot be an id and must be rejected
+# (other attribute forms -- radix, suffixes, repeated or misplaced attributes -- are not demanded either way by the property)
+RAW = [
+    ("WR0", ["#[archetype_id(255)] ecs_archetype!(A0, #[component_id(255)] P0);"], ["<A0 as Archetype>::ARCHETYPE_ID == 255", "<A0 as ArchetypeHas<P0>>::COMPONENT_ID == 255"], None),
+    ("WR3", ["#[archetype_id(256)] ecs_archetype!(A0, P0);"], None, ("number too large", "out of range", "too large")),
+    ("WR4", ["ecs_archetype!(A0, #[component_id(256)] P0);"], None, ("number too large", "out of range", "too large")),
+    ("WR5", ["#[archetype_id(1000)] ecs_archetype!(A0, P0);"], None, ("number too large", "out of range", "too large")),
+]
+
+
+def raw_source(name, decl):
+    lines = ["pub mod m_%s {" % name.lower(), "    #[allow(unused_imports)] use gecs::prelude::*;", "    pub struct P0; pub struct P1; pub struct P2;", "    ecs_world! {", "        ecs_name!(%s);" % name]
+    lines += ["        " + d for d in decl]
+    lines.append("    }")
+    return lines
 
 
 def families(tier, seed=0):
@@ -215,15 +258,46 @@ def rule_id_corpus(repo, tier, R):
     try:
         per = 24
         jobs = []
+        # raw attribute-form family: one file of accepted forms with const witnesses, one of forms that must be rejected
+        rg = ["#![forbid(unsafe_code)]", "#![allow(dead_code, unused_imports, non_snake_case)]"]
+        rb = ["#![allow(dead_code, unused_imports, non_snake_case)]"]
+        rgi, rbi = {}, {}
+        for (nm, decl, asserts, rej) in RAW:
+            src = raw_source(nm, decl)
+            if asserts is not None:
+                start = len(rg) + 1
+                rg += src + ["    const _: () = assert!(%s);" % a for a in asserts] + ["}"]
+                rgi[nm] = (start, len(rg))
+            else:
+                start = len(rb) + 1
+                rb += src + ["}"]
+                rbi[nm] = (start, len(rb))
+        for (kind_, lines_, idx_) in (("rawgood", rg, rgi), ("rawbad", rb, rbi)):
+            path = os.path.join(work, "%s.rs" % kind_)
+            open(path, "w").write("\n".join(lines_) + "\n")
+            jobs.append((kind_, path, [], idx_))
         for ci in range(0, len(good), per):
             chunk = good[ci:ci + per]
             path = os.path.join(work, "good_%d.rs" % (ci // per))
             lines = ["#![forbid(unsafe_code)]", "#![allow(dead_code, unused_imports, non_snake_case)]"]
             index = {}
+            lines.append("#[allow(unused_imports)] use gecs::prelude::*;")
             for (w, exp) in chunk:
                 start = len(lines) + 1
-                lines += w.source() + exp + ["}"]
-                index[w.name] = (start, len(lines))
+                if is_cfg_family(w):
+                    # C16 is judged differentially: against the same declaration with the disabled items deleted
+                    ref = w.reduced()
+                    lines += w.source() + ["}"]
+                    index[w.name] = (start, len(lines))
+                    start = len(lines) + 1
+                    lines += ref.source() + ["}"]
+                    index[w.name + "|ref"] = (start, len(lines))
+                    start = len(lines) + 1
+                    lines += w.twin_expectations(ref)
+                    index[w.name + "|eq"] = (start, len(lines))
+                else:
+                    lines += w.source() + exp + ["}"]
+                    index[w.name] = (start, len(lines))
             open(path, "w").write("\n".join(lines) + "\n")
             jobs.append(("good", path, chunk, index))
         for ci in range(0, len(bad), per):
@@ -235,6 +309,10 @@ def rule_id_corpus(repo, tier, R):
                 start = len(lines) + 1
                 lines += w.source() + ["}"]
                 index[w.name] = (start, len(lines))
+                if is_cfg_family(w):
+                    start = len(lines) + 1
+                    lines += w.reduced().source() + ["}"]
+                    index[w.name + "|ref"] = (start, len(lines))
             open(path, "w").write("\n".join(lines) + "\n")
             jobs.append(("bad", path, chunk, index))
         with concurrent.futures.ThreadPoolExecutor(max_workers=12) as ex:
@@ -254,18 +332,52 @@ def rule_id_corpus(repo, tier, R):
                             errs.setdefault(o, []).append(d["message"])
                     if not d["lines"] and d["code"] is None and "aborting" in d["message"]:
                         continue
+                if kind in ("rawgood", "rawbad"):
+                    for (nm, decl, asserts, rej) in RAW:
+                        if nm not in index:
+                            continue
+                        e = errs.get(nm, [])
+                        if kind == "rawgood":
+                            R.check(not e, "C15-R5", "attr-form|%s" % nm, "accepted with the ids the literal denotes: %s" % " ".join(decl)[:120],
+                                    "declaration `%s` must be accepted with %s but: %s" % (" ".join(decl), asserts, (e or [""])[0][:200]), None)
+                        else:
+                            ok = bool(e) and any(r_ in m for m in e for r_ in rej)
+                            R.check(ok, "C15-R5", "attr-form-reject|%s" % nm, "rejected: %s" % " ".join(decl)[:120],
+                                    "declaration `%s` must be rejected at compile time (%s) but %s" % (" ".join(decl), "/".join(x for x in rej if x) or "any error", "is accepted" if not e else "fails with: " + e[0][:160]), None)
+                    continue
                 if kind == "good":
                     for (w, exp) in chunk:
-                        is_cfg = w.name[:2] in ("WF", "WG", "WH", "WJ")
+                        is_cfg = is_cfg_family(w)
                         rule = "C16-R6" if is_cfg else "C15-R8"
                         e = errs.get(w.name)
                         decl = " ".join(x.strip() for x in w.source()[-(len(w.archs) + 1):-1])
+                        if is_cfg:
+                            eref = errs.get(w.name + "|ref")
+                            eeq = errs.get(w.name + "|eq")
+                            if eref:
+                                # the plain (reduced) declaration itself misbehaves: not a cfg matter, C15's corpus reports it
+                                R.note("C16 corpus: reduced twin of %s does not compile (%s); left to C15" % (w.name, eref[0][:80]))
+                                R.ok(rule, "corpus|%s" % w.name, None, nontrivial=False)
+                                continue
+                            R.check(not e and not eeq, rule, "corpus|%s" % w.name, "every constant equals that of the same declaration with the disabled items deleted: %s" % decl[:160],
+                                    "declaration `%s` does not behave like the same declaration with its cfg-disabled items deleted and its enabled items unannotated: %s" % (decl[:300], ((e or []) + (eeq or []) + [""])[0][:200]), None)
+                            continue
                         R.check(not e, rule, "corpus|%s" % w.name, "%d const witnesses hold: %s" % (len(exp), decl[:160]),
                                 "declaration `%s` : the generated ids / items differ from the independent oracle or the valid declaration is rejected: %s" % (decl[:300], (e or [""])[0][:200]), None)
                 else:
                     for (w, msg) in chunk:
                         e = errs.get(w.name, [])
                         decl = " ".join(x.strip() for x in w.source()[-(len(w.archs) + 1):-1])
+                        if is_cfg_family(w):
+                            eref = errs.get(w.name + "|ref", [])
+                            if not eref:
+                                # the reduced declaration is accepted although the oracle rejects it: C15's matter
+                                R.note("C16 corpus: reduced twin of %s is accepted although the oracle rejects it; left to C15" % w.name)
+                                R.ok("C16-R6", "corpus-reject|%s" % w.name, None, nontrivial=False)
+                                continue
+                            R.check(bool(e), "C16-R6", "corpus-reject|%s" % w.name, "rejected like the same declaration with the disabled items deleted: %s" % decl[:140],
+                                    "declaration `%s` is accepted, but the same declaration with its cfg-disabled items deleted is rejected (%s): a disabled item changed the outcome" % (decl[:300], eref[0][:100]), None)
+                            continue
                         ok = any(msg in m for m in e)
                         R.check(ok, "C16-R6" if w.name[:2] in ("WF", "WG", "WH", "WJ") else "C15-R8", "corpus-reject|%s" % w.name, "rejected with `%s`: %s" % (msg, decl[:140]),
                                 "declaration `%s` must be rejected at compile time with `%s` (duplicate id / counting past 255) but %s" % (decl[:300], msg, ("is accepted" if not e else "fails with: " + e[0][:120])), None)
@@ -385,6 +497,21 @@ def query_oracle(wname, ps):
     return res
 
 
+def reduce_query(ps):
+    """the query with every disabled parameter deleted and every #[cfg] removed: ([(p, None)], original indices)"""
+    truth = dict(PREDS)
+    keep = [(i, p) for i, (p, pred) in enumerate(ps) if pred is None or truth[pred]]
+    return [(p, None) for _, p in keep], [i for i, _ in keep]
+
+
+def world_source_reduced(wname):
+    lines = ["    ecs_world! {", "        ecs_name!(WR);"]
+    for (an, comps) in world_enabled(wname):
+        lines.append("        ecs_archetype!(%s, %s);" % (an, ", ".join(comps)))
+    lines.append("    }")
+    return lines
+
+
 def param_src(i, p, pred):
     ty = {"ew": "&Entity<_>", "ea": "&EntityAny", "dw": "&EntityDirect<_>", "da": "&EntityDirectAny"}.get(p[0])
     if p[0] == "c":
@@ -398,17 +525,19 @@ def param_src(i, p, pred):
     return "%sp%d: %s" % ("#[cfg(%s)] " % pred if pred else "", i, ty)
 
 
-def query_source(n, kind, wname, ps, exp):
+def query_source(n, kind, wname, ps, exp, idxs=None, wty="W"):
     """lines of one witness function (exp None: a declaration that must be rejected)."""
     truth = dict(PREDS)
-    params = ", ".join(param_src(i, p, pred) for i, (p, pred) in enumerate(ps))
+    idxs = idxs if idxs is not None else list(range(len(ps)))
+    params = ", ".join(param_src(idxs[k], p, pred) for k, (p, pred) in enumerate(ps))
     body = []
     tail = []
     if exp is not None:
         if kind.startswith("ecs_iter"):
             body.append("impl Seen<MatchedArchetype> for Tag<%d> {}" % n)
         body.append("allow::<%d, MatchedArchetype>();" % n)
-        for i, (p, pred) in enumerate(ps):
+        for k_, (p, pred) in enumerate(ps):
+            i = idxs[k_]
             if pred is not None and not truth[pred]:
                 continue
             t = {"ew": "&Entity<MatchedArchetype>", "ea": "&EntityAny", "dw": "&EntityDirect<MatchedArchetype>", "da": "&EntityDirectAny"}.get(p[0])
@@ -434,7 +563,7 @@ def query_source(n, kind, wname, ps, exp):
         call = "let _ = %s!(world, k, |%s| { %s });" % (kind, params, b)
     else:
         call = "%s!(world, |%s| { %s });" % (kind, params, b)
-    return ["    pub fn q%d(world: &mut W, k: EntityAny) { %s }" % (n, call)] + tail
+    return ["    pub fn q%d(world: &mut %s, k: EntityAny) { %s }" % (n, wty, call)] + tail
 
 
 PRELUDE = [
@@ -466,11 +595,16 @@ def rule_query_corpus(repo, tier, R):
                 qs = gen_queries(wname, rng, per_combo, with_cfg)
                 good = ["#![forbid(unsafe_code)]", "#![allow(dead_code, unused)]", "pub mod m {"] + PRELUDE + world_source(wname)
                 bad = ["#![allow(dead_code, unused)]", "pub mod m {"] + PRELUDE + world_source(wname)
+                # reduced twins (C16 is judged differentially): same world / queries with the disabled items deleted
+                goodr = ["}", "pub mod mr {"] + PRELUDE + world_source_reduced(wname)
+                badr = ["}", "pub mod mr {"] + PRELUDE + world_source_reduced(wname)
                 gi, bi, meta = {}, {}, {}
+                gri, bri = {}, {}
                 for ps in qs:
                     n += 1
                     desc = "%s %s!(|%s|)" % (wname, kind, ", ".join(param_src(i, p, pred) for i, (p, pred) in enumerate(ps)))
                     is_cfg = with_cfg or wname in ("W3", "W5")
+                    rps, ridx = reduce_query(ps)
                     try:
                         exp = query_oracle(wname, ps)
                         src = query_source(n, kind, wname, ps, exp)
@@ -478,12 +612,30 @@ def rule_query_corpus(repo, tier, R):
                         good += src
                         meta[n] = (desc, is_cfg, sorted(exp), None)
                         total_good += 1
+                        if is_cfg and rps:
+                            srcr = query_source(n, kind, wname, rps, exp, ridx, "WR")
+                            gri[n] = (len(goodr) + 1, len(goodr) + len(srcr))
+                            goodr += srcr
                     except Reject as e:
                         src = query_source(n, kind, wname, ps, None)
                         bi[n] = (len(bad) + 1, len(bad) + len(src))
                         bad += src
                         meta[n] = (desc, is_cfg, None, str(e))
                         total_bad += 1
+                        if is_cfg and rps:
+                            srcr = query_source(n, kind, wname, rps, None, ridx, "WR")
+                            bri[n] = (len(badr) + 1, len(badr) + len(srcr))
+                            badr += srcr
+                if gri:
+                    off = len(good)
+                    good += goodr
+                    for q_, (a_, b_) in gri.items():
+                        gi[(q_, "ref")] = (a_ + off, b_ + off)
+                if bri:
+                    off = len(bad)
+                    bad += badr
+                    for q_, (a_, b_) in bri.items():
+                        bi[(q_, "ref")] = (a_ + off, b_ + off)
                 good.append("}")
                 bad.append("}")
                 files.append(("good", good, gi, meta))
@@ -514,10 +666,30 @@ def rule_query_corpus(repo, tier, R):
                         stray.append(d["message"])
                 if stray:
                     R.fail("C05-R8", "qcorpus|scaffold", "the witness scaffold itself does not compile (not attributable to one query): %s" % stray[0][:300], None)
-                for q, (a, b) in sorted(index.items()):
+                for q, (a, b) in sorted(index.items(), key=str):
+                    if isinstance(q, tuple):
+                        continue
                     desc, is_cfg, exp, msg = meta[q]
                     rule = "C16-R7" if is_cfg else "C05-R8"
                     e = errs.get(q, [])
+                    if is_cfg and (q, "ref") in index:
+                        # differential: the same query with the disabled parameters (and world items) deleted decides what is expected
+                        er = errs.get((q, "ref"), [])
+                        if kind == "good":
+                            if er:
+                                R.note("C16 query corpus: the reduced twin of `%s` does not type-check (%s); left to C05" % (desc[:80], er[0][:60]))
+                                R.ok(rule, "qcorpus|" + desc, None, nontrivial=False)
+                            else:
+                                R.check(not e, rule, "qcorpus|" + desc, "behaves like the same query with the disabled parameters deleted (archetypes %s)" % exp,
+                                        "%s does not behave like the same query with its cfg-disabled parameters deleted (which is expanded for %s): %s" % (desc, exp, (e or [""])[0][:260]), None)
+                        else:
+                            if not er:
+                                R.note("C16 query corpus: the reduced twin of `%s` is accepted although the oracle rejects it; left to C05" % desc[:80])
+                                R.ok(rule, "qcorpus-reject|" + desc, None, nontrivial=False)
+                            else:
+                                R.check(bool(e), rule, "qcorpus-reject|" + desc, "rejected like the same query with the disabled parameters deleted",
+                                        "%s is accepted, but the same query with its cfg-disabled parameters deleted is rejected (%s)" % (desc, er[0][:120]), None)
+                        continue
                     if kind == "good":
                         R.check(not e, rule, "qcorpus|" + desc, "expanded for exactly %s with each parameter bound to that archetype's own column type" % exp,
                                 "%s must be expanded for exactly the archetypes %s (oracle: the property text) with every parameter bound to its own column type, but the type checker disagrees: %s" % (desc, exp, (e or [""])[0][:260]), None)
